@@ -6,7 +6,13 @@ Model of the docstring wrapper logic of pydoctor (C08):
                             `get_to_stan_error`, `safe_to_stan`, `format_docstring_fallback`,
                             `format_docstring` (body + one `Field.format` per field),
                             `format_summary_fallback`, `format_summary`, `format_toc`,
-                            `extract_fields` (its parse-and-store head)
+                            `extract_fields` (parse, store, split `ivar/cvar/var/type` fields onto attributes),
+                            `get_parsed_type`, `type2stan`, `colorized_pyval_fallback`,
+                            `format_constant_value` (the safe_to_stan wrapper)
+  pydoctor/templatewriter/pages/__init__.py
+                            `format_signature`, `format_class_signature`, `format_decorators` (wrappers only)
+  pydoctor/templatewriter/search.py
+                            `format_docstring` (text for the search index)
   pydoctor/epydoc/markup/__init__.py
                             `processtypes` / `_processtypes`, `ParsedDocstring.get_summary`,
                             `ParsedDocstring.get_toc`, `ParseError.linenum`
@@ -21,7 +27,8 @@ the markup parser (`get_parser_by_name(docformat, obj)(doc, errs)`), `to_stan`, 
 the `SummaryExtractor` walk, `build_table_of_content`, the `ParsedTypeDocstring` constructor.
 An outcome is "returns a value" or "raises `e`" — exceptions are explicit (`Exc`), and every
 place where the Python has no handler propagates (`Res.raises`).  The model follows /repo after
-the fixes c422501 (format_toc guards get_toc) and a0ab2a9 (epytext to_node keeps no half-built
+the fixes c422501 (format_toc guards get_toc), 4caea46 (colorized_pyval_fallback guards to_node),
+e1378c4 (search text guards to_node) and a0ab2a9 (epytext to_node keeps no half-built
 document, so `to_node` is a function of the parsed docstring, as the model assumes); the pre-fix
 `format_toc` survives as `formatTocOld`.  Errors a parser appended to the
 `errs` list before returning / raising are part of its outcome.
@@ -571,10 +578,20 @@ def getParsedType (env : Env) (st : St) (obj : Obj) : Option Body × St :=
     else (annotationBody env obj, st)
 
 /-- `safe_to_stan(doc, linker, ctx, fallback=colorized_pyval_fallback, section=sec)`:
-the fallback is `Tag('code')(gettext(doc.to_node()))` — `to_node` runs inside the `except` block of
-safe_to_stan with no handler of its own: if it raises, that exception leaves safe_to_stan, and
-nothing is reported. -/
+the fallback is `Tag('code')(gettext(doc.to_node()))`; since 4caea46 a failure of `to_node` there is
+caught too and the BROKEN placeholder is shown.  Either way the `to_stan` failure is reported. -/
 def safeToStanPyval (env : Env) (st : St) (b : Body) (ctx : Obj) (sec : Sec) : Res Stan × St :=
+  match bodyToStan env b with
+  | .returns s => (.ok s, st)
+  | .raises e =>
+    match bodyToNode env b with
+    | .raises _ => (.ok .broken, reportErrors st ctx [toStanError e] sec)
+    | .returns => (.ok .code, reportErrors st ctx [toStanError e] sec)
+
+/-- HISTORICAL (before 4caea46): `to_node` ran inside the `except` block of safe_to_stan with no
+handler of its own: if it raised, that exception left safe_to_stan, and nothing was reported.
+Used only by `type_old_counterexample` / `typed_failure_escaped_old`. -/
+def safeToStanPyvalOld (env : Env) (st : St) (b : Body) (ctx : Obj) (sec : Sec) : Res Stan × St :=
   match bodyToStan env b with
   | .returns s => (.ok s, st)
   | .raises e =>
@@ -595,6 +612,16 @@ def type2stan (env : Env) (st : St) (obj : Obj) : Res (Option Stan) × St :=
   | none => (.ok none, r.2)
   | some b =>
     match safeToStanPyval env r.2 b obj secAnnotation with
+    | (.ok s, st') => (.ok (some s), st')
+    | (.raises e, st') => (.raises e, st')
+
+/-- HISTORICAL (before 4caea46): `type2stan` over the old fallback -/
+def type2stanOld (env : Env) (st : St) (obj : Obj) : Res (Option Stan) × St :=
+  let r := getParsedType env st obj
+  match r.1 with
+  | none => (.ok none, r.2)
+  | some b =>
+    match safeToStanPyvalOld env r.2 b obj secAnnotation with
     | (.ok s, st') => (.ok (some s), st')
     | (.raises e, st') => (.raises e, st')
 
@@ -636,8 +663,21 @@ inductive SearchOut
   | docstring (t : Option Text)  -- `source.docstring`
   deriving DecidableEq, Repr
 
-/-- `to_node()` is called in `try … except NotImplementedError` only -/
+/-- since e1378c4 `to_node()` is called in `try … except Exception`: any failure → the raw docstring -/
 def searchDocstring (env : Env) (st : St) (obj : Obj) : Res SearchOut × St :=
+  let r := ensureParsed env st obj
+  match r.1 with
+  | none => (.ok .none, r.2)
+  | some src =>
+    match (r.2.objs obj).parsed with
+    | none => (.raises .assertion, r.2)
+    | some pd =>
+      match pdToNode env pd with
+      | .returns => (.ok .nodeText, r.2)
+      | .raises _ => (.ok (.docstring (r.2.objs src).docstring), r.2)
+
+/-- HISTORICAL (before e1378c4): only `NotImplementedError` was handled.  Used by `search_old_counterexample`. -/
+def searchDocstringOld (env : Env) (st : St) (obj : Obj) : Res SearchOut × St :=
   let r := ensureParsed env st obj
   match r.1 with
   | none => (.ok .none, r.2)
@@ -698,6 +738,13 @@ inductive XOut
   | stan (r : Res Stan)
   | stans (r : Res (List Stan))
   | search (r : Res SearchOut)
+
+def XOut.isOk : XOut → Bool
+  | .core o => o.isOk
+  | .typ r => r.isOk
+  | .stan r => r.isOk
+  | .stans r => r.isOk
+  | .search r => r.isOk
 
 def xstep (env : Env) (st : St) (op : XOp) (obj : Obj) : XOut × St :=
   match op with
